@@ -4,7 +4,7 @@
 #![allow(unused, static_mut_refs)]
 #[cfg(kani)]
 mod h {
-    use actix_service::{apply_fn, apply_fn_factory, boxed, map_config, fn_service, Service, ServiceExt, ServiceFactory, ServiceFactoryExt, Transform};
+    use actix_service::{apply_cfg, apply_cfg_factory, apply_fn, apply_fn_factory, boxed, map_config, fn_service, Service, ServiceExt, ServiceFactory, ServiceFactoryExt, Transform};
     use core::{cell::Cell, future::Future, pin::Pin, task::{Context, Poll, RawWaker, RawWakerVTable, Waker}};
     use std::rc::Rc;
 
@@ -273,6 +273,46 @@ mod h {
     ftree!(c11_fac_apply_fn, 1, |fa, fb, k| apply_fn_factory(fa, move |r: u8, s: &Leaf| s.call(k_add(r, k))), |cfg, k| cfg, |ia, ib, k| first_err(ia, None), |sa, sb, k, req| sa.out(k_add(req, k)));
     #[cfg(feature = "thorough")]
     ftree!(c11_fac_boxed, 2, |fa, fb, k| boxed::factory(fa.and_then(fb)), |cfg, k| cfg, |ia, ib, k| first_err(ia, Some(ib)), |sa, sb, k, req| sa.out(req).and_then(|x| sb.out(x)));
+
+    // apply_cfg_factory(factory, f): build the inner service (unit config), WAIT until it reports ready, then hand (cfg, &service) to
+    // `f`; an inner init error or a readiness error is the init error; `f` never sees a service that has not reported ready
+    static mut CFG_F: (u8, u8, u8) = (0, 0, 0);      // (times f was called, cfg it saw, the leaf's last readiness answer at that moment)
+    fn first_ready_answer(s: Script) -> u8 { let mut i = 0; while i < 3 { if s.rs[i] != 1 { return s.rs[i]; } i += 1; } 0 }
+    #[kani::proof]
+    #[kani::unwind(5)]
+    fn c11_fac_apply_cfg_factory() {
+        reset(); unsafe { CFG_F = (0, 0, 0); }
+        let fsa = any_fscript(); let (sa, sb) = (any_script(), any_script()); let cfg: u8 = kani::any();
+        kani::assume(fsa.pend == 0 && sa.rs[1] != 1 && sa.rs[2] == 0);          // at most one pending round (the first readiness poll) before the outcome is known
+        let inner = map_config(LeafFactory(0, fsa, sa), move |_: ()| 7u8);
+        let fac = apply_cfg_factory(inner, move |c: u8, s: &Leaf| {
+            unsafe { CFG_F = (CFG_F.0 + 1, c, st(0).last_ready); }
+            core::future::ready(Ok::<Leaf, u8>(Leaf(1, sb)))
+        });
+        let built = {
+            let mut fut = core::pin::pin!(fac.new_service(cfg)); let mut k = 1usize; let mut out = None;
+            while k <= 3 { let w = waker(k); let mut cx = Context::from_waker(&w); if let Poll::Ready(r) = fut.as_mut().poll(&mut cx) { out = Some(r); break; } k += 1; }
+            match out { Some(r) => r, None => { assert!(false, "C11: the factory future completes once the inner service is built and ready"); return; } }
+        };
+        let called = unsafe { CFG_F };
+        let ans = first_ready_answer(sa);
+        match built {
+            Err(e) => {
+                assert!(called.0 == 0, "C11: the configure function is not called when the inner service failed to build or to become ready");
+                if fsa.fail { assert!(e == fsa.ierr, "C11: an inner init error is the init error"); }
+                else { assert!(ans == 2 && e == sa.rerr, "C11: a readiness error of the inner service is the init error"); }
+                kani::cover!(!fsa.fail, "readiness error during init");
+            }
+            Ok(svc) => {
+                assert!(!fsa.fail && ans == 0, "C11: init succeeds only if the inner service was built and became ready");
+                assert!(called.0 == 1 && called.1 == cfg, "C11: the configure function is called once with the supplied config");
+                assert!(called.2 == 1, "C11: the configure function sees the inner service only after it reported ready");
+                assert!(st(0).built == 1 && st(0).cfg == 7, "C11: the inner service is built once with the unit config");
+                assert!(svc.0 == 1, "C11: the configured service is the one the configure function returned");
+                kani::cover!(sa.rs[0] == 1, "configured after a pending readiness poll");
+            }
+        }
+    }
 
     // Transform application: a transform that adds `k` to the request before handing it to the wrapped service
     #[derive(Clone, Copy)] struct AddT(u8);
